@@ -50,6 +50,9 @@ is_6531_local (const char *start, const char *end)
     while ((ch = utf8_decode_next (&u)) >= 0) {
         /* skip non-ASCII characters */
         if (ch > 0x007f) {
+            /* quoted-pairSMTP = %d92 %d32-126 */
+            if (qpair)
+                return inverse(EEAV_LPART_NOT_ASCII);
             prev = utf8_decode_at_byte (&u);
             continue;
         }
